@@ -54,6 +54,8 @@ BoundaryNbhdOK(e) ==
        /\ q.rl = 0 /\ q.ldev <= LTOL /\ q.lkdev <= KTOL              \* great-circle length and its unit scalings
   /\ \A i \in 1..n : shareCount(ids[i]) \in {1, 2}                   \* corner: three cells; distortion vertex: two
   /\ Len(topo) = nv
+  /\ (odd /\ ~IsPentC(c) => [i \in 1..n |-> shareCount(ids[i]) = 2] = HexBoundaryPattern(c))   \* the extra points sit exactly where the
+                                                                                                  \* lattice model puts them
   \* C11: vertexToLatLng(slot i) is the i-th topological corner of the boundary
   /\ \A i \in 1..6 : e.tv[i] = (IF i <= nv THEN topo[i] ELSE 0)
   /\ e.ra = 0 /\ e.adev <= ATOL /\ e.kmdev <= KTOL                   \* area = enclosed spherical area; Km2 / M2 scalings
